@@ -215,14 +215,14 @@ prop('C04',
       'the Minneapolis defeat-before-election step is taken as the listed exception of R14'])
 
 prop('C02',
-     [('R00', cf.r00_helper_semantics), ('R07', gr.r07_transfer_once), ('R08', gr.r08_reset_pairing), ('R09', gr.r09_reweighting), ('R10', mk.r10_residual_pairing),
+     [('R00', cf.r00_helper_semantics), ('R07', gr.r07_transfer_once), ('R08', gr.r08_reset_pairing), ('R09', gr.r09_reweighting), ('R10', mk.r10_residual_pairing), ('R10b', mk.r10b_redistribute_before_record),
       ('R19', gr.r19_multiplier_last), ('R21', va.r21_scale_rounding), ('R22', va.r22_closure)],
      'Static analysis of the bookkeeping shape that conservation rests on: a transferred ballot is credited exactly once '
      '(candidate or non-transferable total); a tally is reset only after all its ballots were passed on; transfer values '
      'are old x surplus / tally rounded down (a transfer cannot create votes); Meek credits and residual debits are the same '
      'expressions; the multiplier is applied after rounding; add/sub are exact and products floor once (R21); `//` is not '
      'applied to values where rational arithmetic is possible (R22c). ' + NOT_BEHAVIOUR,
-     ['credit exactly once (R07)', 'reset pairing (R08)', 'transfer values rounded down (R09 + R21)', 'Meek residual pairing (R10)',
+     ['credit exactly once (R07)', 'reset pairing (R08)', 'transfer values rounded down (R09 + R21)', 'Meek residual pairing (R10)', 'Meek: redistribution before the next recorded step after an exclusion (R10b)',
       'multiplier last (R19)', 'no value // value under rational (R22c)'],
      ['the inequality itself ("short by at most two units per ballot per transfer"), non-negativity, and the QPQ identity '
       'sum of weights = number elected: statements about runtime numbers'])
